@@ -668,7 +668,7 @@ void runFiles(const Plan& p)
 
 } // namespace
 
-REGISTER_SCENARIO(c17_files, "C17", "files", genFiles, runFiles, 60000, 3000000, {1}, 0, 2000000, 300.0,
+REGISTER_SCENARIO(c17_files, "C17", "files", genFiles, runFiles, 100000, 6000000, {1}, 0, 2000000, 300.0,
                   "non-trivial: >=2 writes to one path with a reopen between, a line or size on a chunk/block boundary, a BOM file, an EXDEV move, or an injected fault that fired; distinct by plan hash",
                   "src/File.cpp, src/TextFile.cpp, src/Directory.cpp (copy, move, remove), include/asl/File.h stream operators, glibc stdio (real, over fopencookie)",
                   "VFS (in-memory tree; cookie read/write/seek/close are the system calls; stat, rename, unlink), clock", false);
